@@ -16,15 +16,36 @@ try:
     FORMS_GEN_STATUS = translate_c09_r3.generate(core.REPO, os.path.join(core.COQ, "gen"))
 except Exception as _ex:  # the generator itself broke: same fallback as an unparseable source
     FORMS_GEN_STATUS = "unparsed generator-failed: %s" % str(_ex)[:200]
+# round 4: coq/gen/BitsKernelsGen.v - the LOOP kernels of shift.rs / bits.rs / math.rs (shl_in_place, shr_in_place_with_carry,
+# the zip loops of bitand/bitor/bitxor/and_not_large, the trailing_zeros / trailing_ones / shifted-by-one scans, the count_ones
+# fold, are_slice_low_bits_nonzero, ones_word, shr_word) as Gallina folds, by the loop-to-fold translator of
+# tools/translate_c01_r4.py (used as a library); Int/BitsKernelsGenProof.v proves each equal to the hand-written kernel.
+try:
+    import translate_c09_r4
+    KERNELS_GEN_STATUS = translate_c09_r4.generate(core.REPO, os.path.join(core.COQ, "gen"))
+    KERNELS_GEN_DETAIL = ["%s:%s" % (n, st.split(" ", 1)[0]) for n, st in translate_c09_r4.LAST_RESULTS]
+except Exception as _ex:
+    KERNELS_GEN_STATUS = "unparsed generator-failed: %s" % str(_ex)[:200]
+    KERNELS_GEN_DETAIL = []
 
 
 def extra_phase(tier, seed, exes, oracle):
     word = FORMS_GEN_STATUS.split(" ", 1)[0]
+    kword = KERNELS_GEN_STATUS.split(" ", 1)[0]
+    hist = {"translator_c09:BitsFormsGen:" + word: 1, "translator_c09:BitsKernelsGen:" + kword: 1}
+    for d in KERNELS_GEN_DETAIL:
+        hist["FRAGMENT:BitsKernelsGen:" + d] = 1
     return {
         "evaluations": 0,
-        "hist": {"translator_c09:BitsFormsGen:" + word: 1},
+        "hist": hist,
         "nontrivial": [],
-        "samples": [{"fragment": "coq/gen/BitsFormsGen.v (tools/translate_c09_r3.py from integer/src/bits.rs, shift_ops.rs, helper_macros.rs)",
+        "samples": [{"fragment": "coq/gen/BitsKernelsGen.v (tools/translate_c09_r4.py over the loop-to-fold translator tools/translate_c01_r4.py, "
+                                 "from integer/src/math.rs, shift.rs, bits.rs)",
+                     "status": KERNELS_GEN_STATUS,
+                     "tied_by": "C09_gen_shift_kernels, C09_gen_logic_kernels, C09_gen_scan_kernels, C09_gen_count_lowbits_kernels "
+                                "(generated = hand-written kernels); every heap-operand case also runs through the generated kernels"
+                                if kword == "ok" else "correspondence run only for the functions listed unparsed (last good copy kept, marked STALE)"},
+                    {"fragment": "coq/gen/BitsFormsGen.v (tools/translate_c09_r3.py from integer/src/bits.rs, shift_ops.rs, helper_macros.rs)",
                      "status": FORMS_GEN_STATUS,
                      "tied_by": "C09_gen_bitand/bitor/bitxor/and_not_is_model, C09_gen_dispatch_correct, C09_gen_prim_table_ok, "
                                 "C09_prim_forms_table_correct, C09_gen_form_arms_ok, C09_gen_shift_arms_ok, C09_bit_kernel_requests_exact, "
@@ -160,6 +181,30 @@ def positions(rng, a):
     return max(0, p)
 
 
+def huge_count(rng):
+    """usize counts far beyond any operand: 2^32 + k, 2^33 + k, 2^48 + k, 2^63 + k, usize::MAX - k (k = 0..130): a count
+    whose low 32 bits are a small number must not be taken for that small number"""
+    k = rng.choice([0, 1, 2, 3, 31, 32, 33, 63, 64, 65, 96, 127, 128, 129, 130, rng.below(131)])
+    r = rng.below(5)
+    if r == 4:
+        return (1 << 64) - 1 - k
+    return (1 << [32, 33, 48, 63][r]) + k
+
+
+def huge_operand(rng, tier, signed=True):
+    """inline (1 or 2 words of either build) and heap operands alike"""
+    r = rng.below(6)
+    if r == 0:
+        v = rng.choice([1, 5, (1 << 32) - 1, 1 << 63, (1 << 64) - 1])
+    elif r == 1:
+        v = rng.choice([1 << 64, (1 << 100), (1 << 127) + 1, (1 << 128) - 1, gen_mag(rng, 2)])
+    elif r == 2:
+        v = rng.choice([1 << 128, (1 << 192) + 1, (1 << 192) - 1, gen_mag(rng, 3)])
+    else:
+        v = abs(operand(rng, tier))
+    return -v if signed and rng.chance(1, 2) else v
+
+
 OWN = ["", "_vr", "_rv", "_rr"]
 OWN_AS = OWN + ["_as", "_asr"]
 PFORMS = ["bv", "rv", "bvr", "rvr", "pb", "pr", "rpb", "rpr", "as", "asr"]
@@ -217,6 +262,20 @@ def gen_cases(rng, tier, n):
         elif k < 52:
             out.append(lay(rng, "%s %s" % (rng.choice(["not", "not_r"]), hx(operand(rng, tier)))))
         elif k < 66:
+            if rng.chance(1, 5):
+                # counts at and beyond 2^32: >> gives 0 / -1 (floor); << only of zero (anything else cannot be allocated)
+                r = rng.below(10)
+                if r == 0:
+                    out.append(lay(rng, "%s%s 0 %x" % (rng.choice(["shl", "ushl"]), rng.choice(SHIFT_FORMS), huge_count(rng))))
+                elif r < 6:
+                    out.append(lay(rng, "shr%s %s %x" % (rng.choice(SHIFT_FORMS), hx(huge_operand(rng, tier)), huge_count(rng))))
+                elif r < 8:
+                    out.append(lay(rng, "ushr%s %s %x" % (rng.choice(SHIFT_FORMS), hx(huge_operand(rng, tier, False)), huge_count(rng))))
+                else:
+                    a = huge_operand(rng, tier)
+                    op = rng.choice(["bit", "ubit", "clear_bit", "clear_high_bits", "split_bits"])
+                    out.append("%s %s %x" % (op, hx(a if op == "bit" else abs(a)), huge_count(rng)))
+                continue
             a = operand(rng, tier)
             op = rng.choice(["shl", "shr", "shr"]) + rng.choice(SHIFT_FORMS)
             out.append(lay(rng, "%s %s %x" % (op, hx(a), positions(rng, a))))
